@@ -102,8 +102,21 @@ def run_refactoring(m, props=None):
     tmp = make_copy()
     bad = []
     try:
-        if not apply(tmp, m):
-            return [("-", 9, "stale: text to replace not found in %s" % m["file"])]
+        changed = []
+        if m.get("patch"):
+            # a multi-file refactoring kept as a unified diff under /verif/selftest/rf/
+            pf = os.path.join(VERIF, m["patch"])
+            r = subprocess.run(["patch", "-p1", "-s", "-i", pf], cwd=tmp, capture_output=True, text=True)
+            if r.returncode != 0:
+                return [("-", 9, "stale: %s does not apply" % m["patch"])]
+            for l in open(pf):
+                if l.startswith("+++ b/"):
+                    changed.append(l[6:].strip())
+        else:
+            for e in (m.get("edits") or [m]):
+                if not apply(tmp, e):
+                    return [("-", 9, "stale: text to replace not found in %s" % e["file"])]
+                changed.append(e["file"])
         env = dict(os.environ)
         env["GM2_REPO"] = tmp
         env["GM2_NO_EVIDENCE"] = "1"
@@ -112,7 +125,7 @@ def run_refactoring(m, props=None):
         base = os.path.join(X.CACHE, X.tree_hash(REPO))
         if os.path.isdir(base):
             env["GM2_CACHE_SEED"] = base
-            env["GM2_CHANGED"] = m["file"]
+            env["GM2_CHANGED"] = ":".join(changed)
         for pid in (props or claimed()):
             r = subprocess.run([sys.executable, os.path.join(VERIF, "check"), pid, "--tier", "quick"],
                                capture_output=True, text=True, env=env)
